@@ -58,7 +58,25 @@ def call(p, name, source, is_path, case):
     return r
 
 
+def boundary_content(kmax, pad):
+    """An ASCII file (bytes == characters) in which a CR sits at every offset 2^k - 1 and its LF at 2^k, k = 6..kmax,
+    i.e. a CRLF pair straddles every power-of-two boundary a buffered reader might use; ordinary lines in between."""
+    size = 2 ** kmax + 4096
+    buf = bytearray(b'a' * size)
+    for i in range(37, size, 53):
+        buf[i] = 0x20 if i % 3 else 0x0a
+    for i in range(pad, size - 1, 97):
+        buf[i:i + 2] = b'\r\n'
+    for k in range(6, kmax + 1):
+        buf[2 ** k - 1:2 ** k + 1] = b'\r\n'
+        buf[2 ** k - 2] = 0x61
+        buf[2 ** k + 1] = 0x62
+    return buf.decode('ascii')
+
+
 def make_content(case):
+    if case.get('boundary'):
+        return boundary_content(case['boundary'], case.get('pad', 11))
     ws = dsl.texts(case['tree'], case['tseed'], limit=10, maxlen=12)
     pieces = []
     seps = case['seps']
@@ -177,10 +195,31 @@ def strategy(spec, ctx):
     })
 
 
+def boundary_cases(tier):
+    base = {'tseed': 1, 'nlines': 0, 'seps': ['\n'], 'head': '', 'tail': '', 'nl': 3, 'nr': 2, 'include_empty': True, 'relative': False,
+            'repl': '-', 'count': 2, 'bad': 'neg'}
+    trees = [['lit', 'ab', False], ['cls', ['named', 'AnyWhitespace']], ['anchor', 'lend', 'class', ['lit', 'a', True]],
+             ['cap', 'class', ['tok', 'Newline'], None]]
+    for kmax in ((14, 21) if tier == 'quick' else (10, 14, 17, 20, 21, 22)):
+        for i, tree in enumerate(trees if tier != 'quick' else trees[:2]):
+            yield dict(base, tree=tree, boundary=kmax, pad=11 + i, state=['plain', 'compile'][i % 2])
+
+
 def shards(tier):
-    n = 16 if tier == 'quick' else 48
-    return [{'examples': 400 if tier == 'quick' else 3000} for _ in range(n)]
+    n = 15 if tier == 'quick' else 47
+    return [{'examples': 400 if tier == 'quick' else 3000} for _ in range(n)] + [{'mode': 'boundary'}]
+
+
+SHARD_TIMEOUT = {'quick': 300, 'thorough': 3000}
 
 
 def run_shard(spec, ctx):
+    if spec.get('mode') == 'boundary':
+        from pbt.common import guarded
+        n = 0
+        for case in boundary_cases(ctx.tier):
+            n += 1
+            guarded(ctx, case, lambda case=case: check_case(case, ctx), secs=240)
+        ctx.exhaustive['files with a CRLF pair straddling every power-of-two offset up to 2^21 (2^22 thorough) x 2-4 patterns'] = n
+        return
     run_hypothesis(ctx, strategy(spec, ctx), check_case, spec['examples'])
